@@ -516,6 +516,16 @@ void _mzd_trsm_upper_left(mzd_t const *U, mzd_t *B, const int cutoff) {
 }
 
 mzd_t *mzd_trtri_upper(mzd_t *U) {
+#if __M4RI_HAVE_SSE2
+  if (__M4RI_UNLIKELY(__M4RI_ALIGNMENT(mzd_row(U, 0), 16) != 0)) {
+    /* a window at an odd word offset: the lookup tables are 16-byte aligned, so must be the rows */
+    mzd_t *Ubar = mzd_copy(NULL, U);
+    mzd_trtri_upper(Ubar);
+    mzd_copy(U, Ubar);
+    mzd_free(Ubar);
+    return U;
+  }
+#endif
   if (U->nrows * U->ncols < __M4RI_CPU_L3_CACHE << 1) {
     mzd_trtri_upper_russian(U, 0);
   } else {
